@@ -307,3 +307,31 @@ def pool_map(fn, items, workers: int | None = None, chunksize: int = 1):
     ctx = mp.get_context('fork')
     with ctx.Pool(workers or NCPU) as pool:
         return pool.map(fn, items, chunksize)
+
+
+def replay_saved(prop: str, trace_module: str, path: str, rerun=None) -> int:
+    """--replay: re-judges the cases saved in a replay file with the trace specification; when
+    `rerun` is given, each case is first re-executed against the current tree (rerun(case) -> case)."""
+    data = json.loads(Path(path).read_text())
+    cases = data.get('cases', [])
+    recs = []
+    for i, c in enumerate(cases):
+        c = dict(c)
+        if rerun is not None:
+            try:
+                c = rerun(c)
+            except Exception as e:      # noqa: BLE001
+                print(f'case {i}: cannot re-run ({type(e).__name__}: {e}); judging the saved record')
+        c['tid'] = i
+        recs.append(c)
+    if not recs:
+        print('no cases in replay file')
+        return 2
+    out = validate_trace(trace_module, recs, nshards=1)
+    bad = {mm[0]: mm[1] for mm in out.mismatches}
+    for i, c in enumerate(recs):
+        print(f'case {i}: {"REJECTED clause=" + str(bad[i]) if i in bad else "accepted"} :: {json.dumps(c, default=str)[:400]}')
+    if bad:
+        print(f'VIOLATION property={prop} replay={path}')
+        return 1
+    return 0
